@@ -104,6 +104,55 @@ def generate():
         for i, nm in enumerate(['clsb', 'clb', 'cls']):
             out.append(f'/-- component {i} of `AsymptoticCalculator.pvalues` (source sha256 {digest(calcmod.AsymptoticCalculator.pvalues)}…) -/')
             out.append(f'def asym_{nm} (Phi : K → K) (t shiftSB shiftB : K) : K :=\n{sx.lean_tree(sx.paths(lambda: run_pvalues(i)))}\n')
+        # ---- hypotest: which quantities are returned, in which order, for every flag combination (32-row table)
+        infmod = sys.modules['pyhf.infer']
+        ocreate, ocheck = infmod.utils.create_calculator, infmod._check_hypotest_prerequisites
+
+        class FakeCalc:
+            def teststatistic(self, poi): return var('t')
+            def distributions(self, poi): return ('sb_dist', 'b_dist')
+            def pvalues(self, t, a, b): return var('CLsb'), var('CLb'), var('CLs')
+            def expected_pvalues(self, a, b):
+                return ([var(f'CLsb_exp{i}') for i in range(5)], [var(f'CLb_exp{i}') for i in range(5)], [var(f'CLs_exp{i}') for i in range(5)])
+
+        class FakeCfg:
+            poi_index = 0
+            def suggested_init(self): return [1.0]
+            def suggested_bounds(self): return [(0.0, 10.0)]
+            def suggested_fixed(self): return [False]
+
+        class FakePdf: config = FakeCfg()
+
+        def names(x):
+            if isinstance(x, FakeCalc): return ['calculator']
+            if isinstance(x, (list, tuple)): return [n for y in x for n in names(y)]
+            t = sx.lit(x).t
+            assert t[0] == 'var', t
+            return [t[1]]
+        rows = []
+        try:
+            infmod.utils.create_calculator = lambda *a, **k: FakeCalc()
+            infmod._check_hypotest_prerequisites = lambda *a, **k: None
+            for q0 in (False, True):
+                for tp in (False, True):
+                    for ex in (False, True):
+                        for es in (False, True):
+                            for ca in (False, True):
+                                r = infmod.hypotest(1.0, [1.0], FakePdf(), return_tail_probs=tp, return_expected=ex, return_expected_set=es,
+                                                    return_calculator=ca, test_stat='q0' if q0 else 'qtilde')
+                                bare = not isinstance(r, tuple)
+                                items = [names(r)] if bare else [names(x) for x in r]
+                                rows.append((tp, ex, es, ca, q0, bare, items))
+        finally:
+            infmod.utils.create_calculator, infmod._check_hypotest_prerequisites = ocreate, ocheck
+        B = lambda b: 'true' if b else 'false'
+        L = lambda it: '[' + ', '.join('[' + ', '.join(f'"{n}"' for n in i) + ']' for i in it) + ']'
+        out.append(f'/-- `infer/__init__.py::hypotest` (source sha256 {digest(infmod.hypotest)}…): the returned pieces, each as the list of the calculator quantities it\nholds, for every combination of the four `return_*` flags and q0 / not q0 (obtained by running `hypotest` with a symbolic calculator) -/')
+        out.append('def hypotest_returns (tailProbs expected expectedSet calculator isQ0 : Bool) : List (List String) :=\n  match tailProbs, expected, expectedSet, calculator, isQ0 with\n'
+                   + '\n'.join(f'  | {B(tp)}, {B(ex)}, {B(es)}, {B(ca)}, {B(q0)} => {L(items)}' for tp, ex, es, ca, q0, bare, items in rows) + '\n')
+        out.append('/-- is the result a bare value (not a tuple)? -/')
+        out.append('def hypotest_bare (tailProbs expected expectedSet calculator isQ0 : Bool) : Bool :=\n  match tailProbs, expected, expectedSet, calculator, isQ0 with\n'
+                   + '\n'.join(f'  | {B(tp)}, {B(ex)}, {B(es)}, {B(ca)}, {B(q0)} => {B(bare)}' for tp, ex, es, ca, q0, bare, items in rows) + '\n')
     finally:
         tsm.fit, tsm.fixed_poi_fit = of, ofx
         utilsmod.get_test_stat, calcmod.generate_asimov_data = oget, oasimov
